@@ -496,7 +496,7 @@ impl Engine for C02 {
     fn runs(&self, tier: Tier) -> u64 {
         match tier {
             Tier::Quick => 40_000,
-            Tier::Thorough => 300_000,
+            Tier::Thorough => 500_000,
         }
     }
     fn gen(&self, seed: u64, index: u64, tier: Tier) -> C02Plan {
